@@ -4,7 +4,7 @@ SPEC = dict(
     pkg="./snapshot", files=["snapshot/c11_verif_test.go"],
     rule="200 (quick) / 5000 (thorough) sequencer-driven schedules of 6-12 actions on a real snapshot.Store: open / read (2 KiB) / close of up to ~6 streams, idle fire and early fire "
          "(4 in 5 schedules inject the timer callback with an aged lastRead; 1 in 5 use a 20 ms read timeout and the real timers, incl. Close issued when the timer is due), "
-         "incremental snapshot creation, Store.Reap and the reaper goroutine, both paused inside the write-locked section; "
+         "incremental snapshot creation, Store.Open failing at every point a descriptor shortage can reach (RLIMIT_NOFILE sweep), Store.Reap and the reaper goroutine, both paused inside the write-locked section; "
          "a schedule is non-trivial when at least one idle fire happened and at least one reap was attempted while a stream was open; distinct by actions + observations",
     exhaustive=False,
     trusted=["MultiRSW as modelled in C34 (Model.C34.mrsw_step_obs is the lock of this model); sync.Mutex/Cond, time.AfterFunc",
